@@ -1,6 +1,7 @@
 import Thanos.Model.CompactProto
 import Thanos.Lemmas.CompactProto
 import Thanos.Props.C34
+import Thanos.Generated.Facts
 /-
   C29 — Compaction never loses or invents data, even if it crashes.
 
@@ -430,5 +431,18 @@ example : (run (compactorOnly 100) (init 0)
 example : (run (compactorOnly 100) (init 0)
     [.ship, .ship, .ship, .compact [1, 2], .markSource 1 4, /- crash, restart -/ .gc 2, .tick 101, .clean 1, .clean 2]).map
       (fun s => s.blocks.map (fun b => (b.id, b.sources, b.mark))) = some [(3, [3], none), (4, [1, 2], none)] := by decide
+
+/-! ## Regenerated facts: the order of the bucket-changing steps -/
+
+/-- `Group.compact` uploads the result before it marks the sources (`markSource` needs the result in
+    the bucket); the earlier `deleteBlock` is the branch for a compaction that produced no block and
+    only touches sources without samples.  `deleteBlock` marks, it never deletes. -/
+theorem C29_fact_compact_order :
+    Thanos.Facts.groupCompactOrder = ["CompactWithBlockPopulator", "deleteBlock", "Upload", "deleteBlock"] ∧
+    Thanos.Facts.deleteBlockMarks = ["MarkForDeletion"] := by decide
+
+/-- one iteration of `BucketCompactor.Compact`: sync, clean, garbage-collect, then plan -/
+theorem C29_fact_loop_order :
+    Thanos.Facts.compactLoopOrder = ["SyncMetas", "DeleteMarkedBlocks", "GarbageCollect", "Groups"] := by decide
 
 end Thanos.CompactProto
